@@ -4,7 +4,7 @@ import random
 import struct
 import zlib
 
-from .. import core, scangen
+from .. import rawdata, core, scangen
 
 TRUSTED = [
     "Coq 8.16.1 kernel (coqc); vm_compute for the non-vacuity example; no native_compute",
@@ -142,6 +142,29 @@ def run(tier, seed):
                              "out": rng.choice(["file", "stdout"]), "inp": "pipe" if n in (3, 10) else rng.choice(["file", "pipe"]), "data": data, "group": (sid, kind)})
             sid += 1
 
+    # sparse matches in a LARGE input: while one batch of matching packets is collected the input advances by far more than any
+    # fixed amount a reader might use as a yardstick (here > 16 MiB, also in the quick tier): nothing may be lost behind the gap
+    for rep in range(1 if not deep else 3):
+        la, lb = rng.sample(range(24), 2)
+        fa, fb = (rng.randrange(3) << 12) | rng.randrange(12), (5 << 12) | rng.randrange(40)
+        mk = lambda link, fee, n, i: (rawdata.mk_rdh(link=link, fee=fee, payload_len=n, pktcnt=i & 0xFF, orbit=i, pages=0, stop=0), bytes([i & 0xFF]) * n)
+        pkts = [mk(la, fa, rng.choice([0, 80, 160]), i) for i in range(3)]
+        ngap = rng.choice([2200, 2400]) if not deep else rng.choice([2200, 3000, 4400])
+        pkts += [mk(lb, fb, 8192 - 64, 3 + i) for i in range(ngap)]                       # ~ 17..34 MiB of the other link
+        for i in range(150):
+            pkts.append(mk(la, fa, rng.choice([0, 16, 240]), 5000 + i))
+            if i % 3 == 0:
+                pkts.append(mk(lb, fb, 1000, 6000 + i))
+        pkts.append(mk(la, fa, 10000, 7000))
+        data = scangen.serialize(pkts)
+        path = os.path.join(tmp, "in%d.raw" % sid)
+        with open(path, "wb") as f:
+            f.write(data)
+        for flt, inp in (("link:%d" % la, "file"), ("fee:%d" % fa, "pipe"), ("link:%d" % lb, rng.choice(["file", "pipe"]))):
+            jobs.append({"sid": sid, "path": path, "pkts": pkts, "flt": flt, "present": True, "out": rng.choice(["file", "stdout"]), "inp": inp,
+                         "data": data, "group": (sid, "sparse-" + flt), "big": True})
+        sid += 1
+
     def work(j):
         args = filt_args(j["flt"])
         outp = os.path.join(tmp, "out_%d_%s.raw" % (j["sid"], j["flt"].replace(":", "_")))
@@ -169,7 +192,7 @@ def run(tier, seed):
         return rc, got, again, se[-400:].decode("utf8", "replace")
 
     results = core.par_map(work, jobs)
-    mlines = [scangen.hexline(j["inp"], j["flt"], 0, j["data"]) for j in jobs]
+    mlines = [scangen.hexline(j["inp"], j["flt"], 0, j["data"] if not j.get("big") else b"") for j in jobs]
     model = core.run_lines(core.FPMODEL, "written", mlines, shards=core.NCPU)
     d2 = set()
     groups = {}
@@ -182,7 +205,7 @@ def run(tier, seed):
             chk.spec_violations.append(dict(desc, rc=str(rc), stderr=err, what="filtered writing failed on a well-framed input"))
             continue
         gm = "%d %08X" % (len(got), zlib.crc32(got) & 0xFFFFFFFF)
-        if gm != lm:
+        if gm != lm and not j.get("big"):          # the large inputs are judged by the specification only
             chk.disagreements.append(dict(desc, impl=gm, model=lm))
         if got != exp:
             k = next((i for i in range(min(len(got), len(exp))) if got[i] != exp[i]), min(len(got), len(exp)))
@@ -191,7 +214,8 @@ def run(tier, seed):
         if again is not None and again != got:
             chk.spec_violations.append(dict(desc, what="filtering an output again with the same filter does not reproduce it",
                                             first_len=len(got), second_len=len(again)))
-        groups.setdefault(j["group"], []).append((j, got))
+        if not j.get("big"):
+            groups.setdefault(j["group"], []).append((j, got))
         d2.add((j["flt"].split(":")[0], j["present"], j["out"], j["inp"], min(len(j["pkts"]), 100), len(got) > 0))
         if len(samples) < 3 and len(j["data"]) < 600 and j["present"]:
             samples.append(dict(desc, output_len=len(got), model=lm))
